@@ -163,6 +163,8 @@ _G_BREAKER = dgen(GKinds='{"ok", "garbage", "close_pre"}', Balancers='{"round-ro
 _G_ELIG = dgen(NEPs="{2, 3}", GKinds='{"ok", "reset_pre"}', Balancers='{"priority", "round-robin", "least-connections"}',
                Placements='{"all", "split"}', ReqModels='{"m1", "m2", "mx"}', BootKinds='{"up", "sick", "dead"}')
 
+_G_PANIC = dgen(NEPs="{1, 2}", GKinds='{"ok", "panic", "reset_pre"}', Balancers='{"round-robin"}', NSteps=2)
+
 _DISPATCH_BASE = {
     "name": "dispatch",
     "mc": [{"module": "Dispatch", "cfg": "Dispatch_mc.cfg"}],
@@ -229,7 +231,8 @@ PROPS["C19"] = {
             "all gauges/counters are read at quiescence.",
     "exhaustive": False,
     "assumptions": ["quiescence = all clients returned and the collector's numbers unchanged for 150 ms"],
-    "parts": [dpart([_G_SINGLE2, _G_BURST, _G_BREAKER], [_G_SINGLE3, _G_BURST, _G_BREAKER, _G_TWOSTEP, _G_FAIL], 8000)],
+    "parts": [dpart([_G_SINGLE2, _G_BURST, _G_BREAKER], [_G_SINGLE3, _G_BURST, _G_BREAKER, _G_TWOSTEP, _G_FAIL], 8000),
+              dict(dpart([_G_PANIC], [_G_PANIC]), name="panic", mc=[], env={"VERIF_PAR": "1"})],
 }
 
 
